@@ -121,13 +121,13 @@ func c18ErrClass(err error) int {
 }
 
 type c18Tok struct {
-	Kind    int    `json:"kind"`
-	Literal string `json:"literal"`
-	Quoted  bool   `json:"quoted,omitempty"`
-	Ordinal int    `json:"ordinal,omitempty"`
-	Line    int    `json:"line"`
-	Char    int    `json:"char"`
-	Err     string `json:"err,omitempty"`
+	Kind     int    `json:"kind"`
+	Literal  string `json:"literal"`
+	Quoted   bool   `json:"quoted,omitempty"`
+	Ordinal  int    `json:"ordinal,omitempty"`
+	Line     int    `json:"line"`
+	Char     int    `json:"char"`
+	Err      string `json:"err,omitempty"`
 	errClass int
 }
 
